@@ -894,6 +894,12 @@ int EGLPNUM_TYPENAME_ILLsimplex (
 	{
 		rval = EGLPNUM_TYPENAME_ILLbasis_load (lp, B);
 		CHECKRVALG (rval, CLEANUP);
+		/* devex reference weights are not part of a stored basis: they belong to
+		 * the run that built them and are sized for the problem as it was then */
+		EGLPNUM_TYPENAME_EGlpNumFreeArray (pinf->pdinfo.norms);
+		ILL_IFFREE (pinf->pdinfo.refframe);
+		EGLPNUM_TYPENAME_EGlpNumFreeArray (pinf->ddinfo.norms);
+		ILL_IFFREE (pinf->ddinfo.refframe);
 		if (it.algorithm == DUAL_SIMPLEX)
 		{
 			if (B->rownorms)
